@@ -61,8 +61,21 @@ def run_property(pid, tier, seed):
     keys = props.keys_for(reg, pid)
     thorough = tier == "thorough"
     ctx = mp.get_context("fork")
-    with ctx.Pool(min(16, max(1, len(keys)))) as pool:
-        gens = pool.map(_gen_worker, keys, chunksize=1)
+    # the verification cone: seeds plus, transitively, every contract applied at a call site / lemma used
+    gens, done, todo = [], set(), list(keys)
+    while todo:
+        with ctx.Pool(min(16, max(1, len(todo)))) as pool:
+            batch = pool.map(_gen_worker, todo, chunksize=1)
+        done |= set(todo)
+        gens += batch
+        nxt = set()
+        for g in batch:
+            for k in (g.get("info") or {}).get("callees", []):
+                c = reg.contracts.get(k)
+                if c is not None and k not in done and (c.is_lemma or (c.status == "verify" and not c.inline)):
+                    nxt.add(k)
+        todo = sorted(nxt)
+    keys = sorted(done)
     jobs, fn_infos, problems = [], [], []
     for g in gens:
         if g["status"] != "ok":
